@@ -479,6 +479,8 @@ struct Exec {
                 case 10: return ncmpi_cancel(ncid, NC_REQ_ALL, nullptr, nullptr);
                 case 11: return ncmpi_sync(ncid);
                 case 16: return ncmpi_sync_numrecs(ncid);
+                case 21: { val = 1.0; int vid = 0; MPI_Offset *S[1] = {st}, *C[1] = {ct}; double *B[1] = {&val}; return ncmpi_mput_vara_double_all(ncid, 1, &vid, S, C, B); }
+                case 22: { int vid = 0; MPI_Offset *S[1] = {st}, *C[1] = {ct}; double *B[1] = {&val}; return ncmpi_mget_vara_double(ncid, 1, &vid, S, C, B); }
                 case 20: { int d = -1, v1 = -1; int r1 = ncmpi_def_dim(ncid, (op.name + "_huge").c_str(), (MPI_Offset)1 << 30, &d); if (r1 != NC_NOERR) return r1;
                            r1 = ncmpi_def_var(ncid, (op.name + "_a").c_str(), NC_DOUBLE, 1, &d, &v1); if (r1 != NC_NOERR) return r1;
                            r1 = ncmpi_def_var(ncid, (op.name + "_b").c_str(), NC_DOUBLE, 1, &d, &v1); if (r1 != NC_NOERR) return r1;
@@ -487,7 +489,9 @@ struct Exec {
                 default: return NC_NOERR;
                 }
             });
-            rc_check(op, opi, rc, exp_rc(op), op.rc_any); break;
+            rc_check(op, opi, rc, exp_rc(op), op.rc_any);
+            { int nr = -1; if (ncmpi_inq_nreqs(ncid, &nr) == NC_NOERR && nr != 0) fail("pending-after-probe", opi, "the call left " + std::to_string(nr) + " nonblocking request(s) pending (every probe call is complete - or rejected - when it returns)"); }
+            break;
         }
         case OP_BADID: {
             int id;
